@@ -165,7 +165,7 @@ pub fn sheet_spec(max_cells: usize, annotations: bool) -> BoxedStrategy<SheetSpe
             ],
             0..=2 * ann,
         ),
-        prop::option::weighted(0.4 * ann as f64, rect_spec(false)),
+        if annotations { prop::option::weighted(0.4, rect_spec(false)).boxed() } else { Just(None).boxed() },
         prop_oneof![14 => Just(0u8), 7 => 1u8..=7],
     )
         .prop_map(|(cells, rows, cols, merges, comments, cfs, filter, far)| SheetSpec {
